@@ -4,7 +4,7 @@ set -e
 cd /repo
 out=$(/venv/bin/python -m pytest -q -p no:cacheprovider --timeout=900 -n 16 2>&1 | tail -1)
 echo "$out"
-if echo "$out" | grep -q "failed\|error"; then
+if echo "$out" | grep -qE "(^|[ ,])[0-9]+ (failed|error)"; then
   echo "TESTS FAIL - not committing"; /venv/bin/python -m pytest -q -p no:cacheprovider --timeout=900 -n 16 2>&1 | grep -E "^FAILED" | head; exit 1
 fi
 git commit -qam "$1"
